@@ -62,6 +62,9 @@ theorem restorePackets_grow (ps : List Pkt) : ∀ c, Wf c → Grow c (restorePac
 /-- the call runs `clearStoreRelated` (`Alloc.clear`): a new session starts.  Exactly:
     * `send` of a CONNECT with clean start that is accepted (version and role match, v5: size
       within the limit, status `disconnected`);
+    * `send` of a CONNACK with reason code 0 and session present = false that is accepted
+      (version and role match, v5: size within the limit, status `connecting`) — the new session
+      started by the CONNACK we sent (fix 10ee029);
     * `recv` of a frame that is complete, not over the receive maximum packet size, of a
       receivable type, and is
       - a CONNECT (status `disconnected`) parsed successfully with clean start, or
